@@ -71,7 +71,7 @@ let par_handler prop = reg prop "Par" (fun ver args obs ->
   | _ -> { model = []; tags = []; spec = Some "malformed Par case"; known = None })
 (* Par2 <prop> <op> <nA> <argsA..> <argsB..>: two different cases at the same time; the first one's observation is checked *)
 let rec take_n n l = if n = 0 then [] else (match l with x :: r -> x :: take_n (n - 1) r | [] -> [])
-let () = reg "C05" "Par2" (fun ver args obs ->
+let par2_handler prop0 = reg prop0 "Par2" (fun ver args obs ->
   match args with
   | prop :: op :: na :: rest ->
     (match obs with
@@ -81,5 +81,15 @@ let () = reg "C05" "Par2" (fun ver args obs ->
         | Some h -> let v = h ver (take_n (int_of_string na) rest) obs in { v with tags = "parallel2" :: v.tags; known = None }
         | None -> { model = []; tags = []; spec = Some ("no handler for " ^ prop ^ "/" ^ op); known = None }))
   | _ -> { model = []; tags = []; spec = Some "malformed Par2 case"; known = None })
+(* SharedPos <print case>: one Positions value shared by concurrent prints; the text is that of Sprint on the case *)
+let () = reg "C05" "SharedPos" (fun ver args obs ->
+  match obs with
+  | "PARMISMATCH" :: _ -> { model = ["the-sequential-text"]; tags = ["shared-positions"]; spec = Some "prints sharing one Positions value at the same time gave a different text than a print with its own Positions"; known = None }
+  | _ ->
+    (match Hashtbl.find_opt handlers "C10/Sprint" with
+     | Some h -> let v = h ver args obs in { v with tags = "shared-positions" :: v.tags; known = None }
+     | None -> { model = []; tags = []; spec = Some "no handler for C10/Sprint"; known = None }))
+let () = par2_handler "C05"
+let () = par2_handler "C08"
 let () = par_handler "C05"
 let () = par_handler "C16"
